@@ -6,8 +6,11 @@ package main
 import (
 	"fmt"
 	"go/token"
+	"os"
+	"runtime/debug"
 	"sort"
 	"strings"
+	"time"
 
 	"golang.org/x/tools/go/ssa"
 )
@@ -124,6 +127,15 @@ type Engine struct {
 	curFrame *frame
 	typeCache map[string]bool
 	concreteInputs []InputRec
+	fallbacks map[string]*Solver
+}
+
+func (e *Engine) closeSolvers() {
+	e.solver.Close()
+	e.arith.Close()
+	for _, s := range e.fallbacks {
+		s.Close()
+	}
 }
 
 func (e *Engine) unsupported(msg string) unsupportedErr {
@@ -216,6 +228,46 @@ func (e *Engine) known(c *Term) (val bool, ok bool) {
 	return false, false
 }
 
+// check asks the primary solver and, on unknown/time-out, the fallback back ends (other solver
+// implementations, long-lived, started lazily). A Sat model from a fallback is re-validated.
+func (e *Engine) check(extra []*Term) (Result, map[string]uint64) {
+	p := e.path
+	r, m := e.solver.Check(p.pc, extra, p.vars)
+	if r != Unknown {
+		return r, m
+	}
+	if len(e.cfg.Fallbacks) > 0 {
+		t0 := time.Now()
+		r2, m2, _ := OneShotRace(e.cfg.Fallbacks, p.pc, extra, p.vars, e.cfg.OneShotS)
+		e.solver.Stats.Fallback++
+		e.solver.Stats.TimeS += time.Since(t0).Seconds()
+		if r2 == Unsat {
+			e.solver.Stats.Unknown--
+			e.solver.Stats.Unsat++
+			return Unsat, nil
+		}
+		if r2 == Sat && m2 != nil && e.modelSatisfiesPC(m2) {
+			ok := true
+			memo := map[*Term]uint64{}
+			for _, x := range extra {
+				if Eval(x, m2, memo) == 0 {
+					ok = false
+				}
+			}
+			if ok {
+				e.solver.Stats.Unknown--
+				e.solver.Stats.Sat++
+				return Sat, m2
+			}
+		}
+	}
+	if d := os.Getenv("VERIF_DUMP_UNKNOWN"); d != "" {
+		os.MkdirAll(d, 0o755)
+		os.WriteFile(fmt.Sprintf("%s/unknown-%d-%d.smt2", d, e.id, e.solver.Stats.Queries), []byte(StandaloneSMT(p.pc, extra)), 0o644)
+	}
+	return Unknown, nil
+}
+
 // feasible reports whether pc ∧ c is satisfiable; on Sat it may return a model.
 func (e *Engine) feasible(c *Term) (Result, map[string]uint64) {
 	p := e.path
@@ -230,7 +282,7 @@ func (e *Engine) feasible(c *Term) (Result, map[string]uint64) {
 		return Sat, p.model
 	}
 	// make sure vars of c are in the var list (they are, all created through freshVar)
-	r, m := e.solver.Check(p.pc, []*Term{c}, p.vars)
+	r, m := e.check([]*Term{c})
 	return r, m
 }
 
@@ -508,7 +560,7 @@ func (e *Engine) assertQuery(q *Term) (Result, map[string]uint64) {
 			return r, m
 		}
 	}
-	r, m := e.solver.Check(p.pc, []*Term{q}, p.vars)
+	r, m := e.check([]*Term{q})
 	if r == Sat && m != nil {
 		if Eval(q, m, map[*Term]uint64{}) == 0 || !e.modelSatisfiesPC(m) {
 			return Unknown, nil
@@ -563,6 +615,7 @@ func (e *Engine) RunPath(entry *ssa.Function, w WorkItem) {
 	res := e.res
 	defer func() {
 		r := recover()
+		lastFrame := e.curFrame
 		e.journalOn = false
 		e.undoAll()
 		res.Paths++
@@ -588,7 +641,15 @@ func (e *Engine) RunPath(entry *ssa.Function, w WorkItem) {
 			// uncaught panic of the code under test
 			e.recordViolation("uncaught-panic", "", r.msg+" @ "+r.pos, nil)
 		default:
-			panic(r)
+			// a Go run-time panic inside the engine itself: never a pass, never a finding
+			wh := ""
+			if fr := lastFrame; fr != nil {
+				wh = " in " + fr.fn.String() + " at " + e.posString(fr.pos)
+			}
+			res.Incomplete = appendUniq(res.Incomplete, fmt.Sprintf("engine error: %v%s", r, wh))
+			if os.Getenv("VERIF_DEBUG") != "" {
+				fmt.Fprintf(os.Stderr, "engine error: %v%s\n%s\n", r, wh, debug.Stack())
+			}
 		}
 	}()
 	e.callFunction(nil, entry, nil, nil, token.NoPos)
